@@ -704,6 +704,7 @@ def build_env(workdir, real=False):
 WHAT = {0: "output file is not 'absent | empty | one header then complete rows with distinct names'",
         1: "call-phase invariant broken (header of this setup, duplicate-free rows, duplicate-free claims, rows subset of claims)",
         2: "an existing line of the output file was altered or removed",
+        4: "a session with a different setup (header) added lines to the output file",
         3: "final file is not 'header once, old rows in place, exactly one row per submitted subject with a sequential run's values'"}
 
 
@@ -744,6 +745,10 @@ def oracle_checks(runner, scen, r):
             prevkey, prevout = key, eo
         for j, sj in enumerate(sess):
             end = enc_file_lines(sj["end_out"], runner.hdr_ids, runner.row_ids)
+            st0 = enc_file_lines(sj["start_out"], runner.hdr_ids, runner.row_ids)
+            if st0[0] == 1 and st0[1] and st0[1][0][0] == 0 and st0[1][0][1] != sj["h"]:
+                # a different setup (C17_header_mismatch_rejected): the file must stay exactly as it was
+                checks.append([2, end, st0]); labels.append((k, 4, f"session {j}"))
             if sj["complete"]:
                 old = _rows(enc_file_lines(sj["start_out"], runner.hdr_ids, runner.row_ids))
                 sub = [[enc_name(c[1]), c[2]] for c in sj["calls"] if c[0] == "e"]
